@@ -161,7 +161,9 @@ def run(chk):
                "partition_by / rank see the rows of a partition in another order than SQL")  # fmt: skip
     # the emulation is applied wherever over(order_by=) is used, and to rank / dense_rank
     pf2 = pol.func("compile_col_expr")
-    uses = [c for c in calls_in(pf2) if dotted(c.func) == "merge_desc_nulls_last"]
+    from ..source import reachable_functions as _rf6
+
+    uses = [c for g_ in _rf6(pol, pf2) for c in calls_in(g_) if dotted(c.func) == "merge_desc_nulls_last" and g_.name != "merge_desc_nulls_last"]
     chk.ob("R6", pol, pf2, "merge_desc_nulls_last feeds over(order_by=) and the rank struct", len(uses) >= 2 and all([norm(a) for a in c.args] == ["order_by", "descending", "nulls_last"] for c in uses),
            "the descending / nulls_last emulation is not applied (or with permuted arguments) where the ordering reaches `over` / rank")  # fmt: skip
 
